@@ -22,7 +22,8 @@ def deci(xs: List[int], frac_rng: Optional[random.Random] = None) -> List[int]:
 
 def make_input(rng: random.Random, n_refs: int = 2, n_qry: int = 8, ref_labels=(80, 200), kinds=None,
                decimals: bool = True, repeats: bool = False, lattice: int = 0, small_ids: bool = False,
-               twins: bool = False, short_contigs: int = 0, labelless: bool = False, extra_refs: int = 0) -> Dict:
+               twins: bool = False, short_contigs: int = 0, labelless: bool = False, extra_refs: int = 0,
+               sparse_ref: bool = False) -> Dict:
     """small_ids: references 1..n and queries 1..m (query ids collide with reference ids)
     twins: some maps get a coincident label (two SiteIDs with the same Position: legal CMAP, e.g. two sites closer than
     the 0.1 bp resolution of the file)"""
@@ -224,9 +225,17 @@ def make_input(rng: random.Random, n_refs: int = 2, n_qry: int = 8, ref_labels=(
                 coords.append(x)
         elif kind == "tiny":
             coords = sorted(rng.sample(range(0, 30000), rng.choice([1, 2, 3, 4, 5])))   # seed peaks but no scored segment
+        elif kind == "onebin":
+            # every label inside one seeding bin (1400 bp): the query's bit vector is [1], every non-zero correlation
+            # sample is exactly 1.0 and so is their root mean square - the score of every peak is exactly 0.0
+            coords = sorted(rng.sample(range(0, 1300), rng.choice([1, 2, 3])))
+        elif kind == "toolong":
+            # a molecule longer than every reference: no correlation is computed for it, it has no seed at all
+            span = max(r["len"] for r in refs) // 10 + rng.randint(1000, 90000)
+            coords = [0] + sorted(rng.sample(range(2000, span, 997), rng.randint(3, 8))) + [span]
         else:
             raise ValueError(kind)
-        if (rng.random() < 0.35 or kind.endswith("rev")) and kind not in ("mirror", "tiny", "flankdup", "samestart"):
+        if (rng.random() < 0.35 or kind.endswith("rev")) and kind not in ("mirror", "tiny", "flankdup", "samestart", "onebin"):
             coords = gen.mirror_query(coords, coords[-1] + coords[0])
             mirrored = True
         dx = deci(coords, rng if decimals else None)
@@ -249,6 +258,32 @@ def make_input(rng: random.Random, n_refs: int = 2, n_qry: int = 8, ref_labels=(
         qrys.append({"id": qid, "len": dq[-1] + rng.choice([1, 10]), "x": dq, "kind": "shortcontig", "ref": rid,
                      "mirrored": k % 2 == 0})
         qid += 1 if small_ids else rng.randint(1, 9)
+    if sparse_ref:
+        # a long contig that is labelled on its first part only (labels stop, the end marker is 300-500 kb further on),
+        # an "overlong" molecule that is longer than the labelled part but shorter than the contig (it cannot be placed:
+        # empty initial alignment), and - with larger ids, i.e. later tasks - molecules that DO belong to the labelled part
+        n = rng.randint(28, 40)
+        xs = gen.make_reference(rng, n, min_gap=2500, mean_gap=8000, lattice=lattice)
+        dx = deci(xs, rng if decimals else None)
+        rid = max(r["id"] for r in refs) + 1
+        refs.append({"id": rid, "len": dx[-1] + rng.randint(3000000, 5000000), "x": dx, "bp": xs})
+        over = [0] + sorted(rng.sample(range(3000, xs[-1] + 20000, 1009), rng.randint(4, 9))) + [xs[-1] + rng.randint(30000, 200000)]
+        first = min(q["id"] for q in qrys)
+        oid = first - 1 if first > 1 and not small_ids else qid
+        dq = deci(over, rng if decimals else None)
+        qrys.insert(0 if oid < first else len(qrys), {"id": oid, "len": dq[-1] + 1, "x": dq, "kind": "overlong", "ref": 0,
+                                                      "mirrored": False})
+        if oid == qid:
+            qid += 1 if small_ids else rng.randint(1, 9)
+        for k in range(2):
+            w = rng.randint(12, 18)
+            a0 = rng.randint(1, n - w - 1)
+            cut = [xs[i] - xs[a0] for i in range(a0, a0 + w)]
+            coords = gen.mirror_query(cut) if k else cut
+            dq = deci(coords, rng if decimals else None)
+            qrys.append({"id": qid, "len": dq[-1] + rng.choice([1, 10]), "x": dq, "kind": "onsparse", "ref": rid,
+                         "mirrored": bool(k)})
+            qid += 1 if small_ids else rng.randint(1, 9)
     for _ in range(extra_refs):
         # many more (small) reference maps: a query is correlated with every reference on both strands
         xs = gen.make_reference(rng, rng.randint(30, 50), min_gap=2500, mean_gap=9000, lattice=lattice)
